@@ -2,13 +2,14 @@
    In Gallina these are one-line facts about Model/Ctor.v: the theorem layer adds little here, and
    DESIGN 7-C19 says so.  The property is decided by the tie: the model's constructors are compared
    with the real ones on values whose components are pairwise different. *)
-From PPP Require Import Base.Bytes Model.V1 Model.V2 Model.Ctor.
+From Coq Require Import ZArith List.
+From PPP Require Import Base.Bytes Std.Num Std.Ip Model.V1 Model.V2 Model.Ctor Spec.V2Wire Spec.Encoder Proofs.RoundTrip Proofs.Roles.
+Import ListNotations.
+Local Open Scope N_scope.
 
-(* the endpoints an address value describes: (source address, source port, destination address, destination port) *)
-Definition endpoints1 (a : addrs1) : option (bytes * N * bytes * N) :=
-  match a with Unknown => None | Tcp4 sa da sp dp | Tcp6 sa da sp dp => Some (sa, sp, da, dp) end.
-Definition endpoints2 (a : addresses) : option (bytes * N * bytes * N) :=
-  match a with AIPv4 sa da sp dp | AIPv6 sa da sp dp => Some (sa, sp, da, dp) | _ => None end.
+(* the endpoints an address value describes -- (source address, source port, destination address,
+   destination port) -- are endpoints1 / endpoints2 of Proofs/Roles.v; pair_endpoints s d is what the
+   two socket addresses of one family say: (ip s, port s, ip d, port d) *)
 
 Theorem C19_new : forall sa da sp dp,
   source_address (ip_new sa da sp dp) = sa /\ destination_address (ip_new sa da sp dp) = da
@@ -36,8 +37,54 @@ Proof. intros. repeat split. Qed.
 Theorem C19_same_endpoints : forall s d, endpoints1 (v1_of_pair s d) = endpoints2 (v2_of_pair s d).
 Proof. intros [a p|a p f1 s1] [b q|b q f2 s2]; reflexivity. Qed.
 
+(* End to end (with C07 and C08): the converted pair, encoded and parsed back, still has the source as
+   the source.  v1: through Display and every text entry point *)
+Theorem C19_round_v1 : forall s d, wf_sock s = true -> wf_sock d = true ->
+  let l := fmt1 (v1_of_pair s d) in
+  addresses_from_str l = Ok (v1_of_pair s d)
+  /\ (forall hd, p1 l = Ok hd -> endpoints1 (addr hd) = pair_endpoints s d)
+  /\ (forall hd, p1s l = Ok hd -> endpoints1 (addr hd) = pair_endpoints s d).
+Proof. exact pair_round_v1. Qed.
+
+(* v2: through the wire encoding the builder emits (C07_wire), with any command, transport and TLVs that fit *)
+Theorem C19_round_v2 : forall cmd tr s d tlvs, wf_sock s = true -> wf_sock d = true ->
+  wf_bytes (tlvs_payload tlvs) = true -> lenN (enc_addrs (v2_of_pair s d) ++ tlvs_payload tlvs) <= 65535 ->
+  exists hd, p2 (wire cmd tr (v2_of_pair s d) tlvs) = Ok hd /\ endpoints2 (haddresses hd) = pair_endpoints s d.
+Proof. exact pair_round_v2. Qed.
+
+(* the order on the wire and in the text is the protocol's: source address, destination address,
+   source port, destination port *)
+Theorem C19_wire_layout : forall s d, same_family s d = true ->
+  enc_addrs (v2_of_pair s d)
+  = sock_ip s ++ sock_ip d ++ [sock_port s / 256; sock_port s mod 256] ++ [sock_port d / 256; sock_port d mod 256].
+Proof. exact pair_wire_layout. Qed.
+Theorem C19_text_layout : forall s d, same_family s d = true ->
+  exists kw fmt, (kw = TCP4 \/ kw = TCP6) /\
+  fmt1 (v1_of_pair s d)
+  = PROXY ++ [SP] ++ kw ++ [SP] ++ fmt (sock_ip s) ++ [SP] ++ fmt (sock_ip d) ++ [SP]
+    ++ fmt_dec (sock_port s) ++ [SP] ++ fmt_dec (sock_port d) ++ CRLF.
+Proof. exact pair_text_layout. Qed.
+
+(* a mixed pair carries no endpoints in either version, and both encodings say so *)
+Theorem C19_mixed : forall s d, same_family s d = false ->
+  v1_of_pair s d = Unknown /\ v2_of_pair s d = AUnspec
+  /\ fmt1 (v1_of_pair s d) = PROXY ++ [SP] ++ UNKNOWN ++ CRLF /\ enc_addrs (v2_of_pair s d) = [].
+Proof. exact pair_mixed. Qed.
+
+(* the premises are satisfiable, and the round trip computes *)
+Example C19_example :
+  wf_sock (SV4 [10; 0; 0; 1] 1234) = true /\ wf_sock (SV4 [192; 168; 1; 9] 443) = true
+  /\ addresses_from_str (fmt1 (v1_of_pair (SV4 [10; 0; 0; 1] 1234) (SV4 [192; 168; 1; 9] 443))) = Ok (Tcp4 [10; 0; 0; 1] [192; 168; 1; 9] 1234 443)
+  /\ pair_endpoints (SV4 [10; 0; 0; 1] 1234) (SV4 [192; 168; 1; 9] 443) = Some ([10; 0; 0; 1], 1234, [192; 168; 1; 9], 443).
+Proof. vm_compute. repeat split. Qed.
+
 Print Assumptions C19_new.
 Print Assumptions C19_v1.
 Print Assumptions C19_unix.
 Print Assumptions C19_pair.
 Print Assumptions C19_same_endpoints.
+Print Assumptions C19_round_v1.
+Print Assumptions C19_round_v2.
+Print Assumptions C19_wire_layout.
+Print Assumptions C19_text_layout.
+Print Assumptions C19_mixed.
